@@ -79,6 +79,7 @@ type ctx struct {
 	seen    map[string]bool // known classes already logged in this run
 	cont    map[string]bool // classes the kernel said to continue past (known finding, continue:true)
 	allocC  uint64          // allowed allocation = allocC*len(input) + allocFloor
+	held    func() string   // re-compares the node decoded from the intact encoding with the original ("" = still equal)
 }
 
 // allocFloor: constant part of the allocation bound. 128 KiB = twice the 64 KiB
